@@ -25,6 +25,7 @@ import (
 	"fmt"
 	"io"
 	"net"
+	"sync/atomic"
 	"strconv"
 	"strings"
 	"sync"
@@ -124,6 +125,48 @@ func guarded(f func() error, abort func(), d time.Duration) (err error, panicked
 		case <-time.After(2 * time.Second):
 			return nil, "", true
 		}
+	}
+}
+
+// idleConn wraps a stream end and records whether the endpoint is parked inside the
+// transport's Read (waiting for input that has not come) — that is idling, not spinning.
+type idleConn struct {
+	net.Conn
+	waiting atomic.Int32
+	done    atomic.Int32 // the endpoint's handshake call has returned
+	reads   atomic.Int64
+}
+
+func (c *idleConn) Read(p []byte) (int, error) {
+	c.waiting.Store(1)
+	n, err := c.Conn.Read(p)
+	c.waiting.Store(0)
+	c.reads.Add(1)
+	return n, err
+}
+
+// quiesce closes the transports once both endpoints are parked in Read with nothing in flight
+// (each waits for the other: silence, not a spin), so that such cases end at once.
+func quiesce(a, b *idleConn, closeAll func(), stop chan struct{}) {
+	idle := 0
+	var last int64 = -1
+	for {
+		select {
+		case <-stop:
+			return
+		case <-time.After(5 * time.Millisecond):
+		}
+		cur := a.reads.Load() + b.reads.Load()
+		if (a.waiting.Load() == 1 || a.done.Load() == 1) && (b.waiting.Load() == 1 || b.done.Load() == 1) && cur == last {
+			idle++
+			if idle >= 10 {
+				closeAll()
+				return
+			}
+		} else {
+			idle = 0
+		}
+		last = cur
 	}
 }
 
@@ -376,6 +419,44 @@ func mutate(r *hx.Rand, kind string, b []byte, hdr int) [][]byte {
 	return [][]byte{c}
 }
 
+// splitRecords cuts a write / datagram into records (hdr = record header length); a tail that
+// is not a whole record is returned as the last element.
+func splitRecords(b []byte, hdr int) [][]byte {
+	var out [][]byte
+	for len(b) >= hdr {
+		n := hdr + (int(b[hdr-2])<<8 | int(b[hdr-1]))
+		if n > len(b) {
+			break
+		}
+		out = append(out, b[:n])
+		b = b[n:]
+	}
+	if len(b) > 0 {
+		out = append(out, b)
+	}
+	return out
+}
+
+// recordMutator mutates the at-th RECORD (counted over everything the peer sends) and leaves
+// the rest of the flight as it is.
+func recordMutator(r *hx.Rand, mut string, at, hdr int) func([]byte) []byte {
+	idx := 0
+	return func(d []byte) []byte {
+		var out []byte
+		for _, rec := range splitRecords(d, hdr) {
+			if idx == at {
+				for _, piece := range mutate(r, mut, rec, hdr) {
+					out = append(out, piece...)
+				}
+			} else {
+				out = append(out, rec...)
+			}
+			idx++
+		}
+		return out
+	}
+}
+
 func execState(desc string) string {
 	stack, _ := hx.KV(desc, "stack")
 	victim, _ := hx.KV(desc, "victim")
@@ -392,15 +473,16 @@ func execState(desc string) string {
 		if victim == "client" {
 			peerEnd = se
 		}
+		mf := recordMutator(r, mut, at, 13)
 		peerEnd.OnSend = func(i int, d []byte) [][]byte {
-			if i == at {
-				return mutate(r, mut, d, 13)
+			if m := mf(d); len(m) > 0 {
+				return [][]byte{m}
 			}
-			return [][]byte{d}
+			return nil
 		}
 		c := dtlcp.Client(ce, se.LocalAddr(), cc)
 		s := dtlcp.Server(se, ce.LocalAddr(), sc)
-		return runBoth(dConn{c}, dConn{s}, victim, func() { ce.Close(); se.Close() }, &o)
+		return runBoth(dConn{c}, dConn{s}, victim, func() { ce.Close(); se.Close() }, &o, nil, nil)
 	}
 	cc, sc := tConfigs(suite)
 	ce, se := pair.StreamPipe()
@@ -408,22 +490,28 @@ func execState(desc string) string {
 	if victim == "client" {
 		peerEnd = se
 	}
-	idx := 0
-	peerEnd.OnWrite = func(d []byte) [][]byte {
-		i := idx
-		idx++
-		if i == at {
-			return mutate(r, mut, d, 5)
-		}
-		return [][]byte{d}
+	mf := recordMutator(r, mut, at, 5)
+	peerEnd.OnWrite = func(d []byte) [][]byte { return [][]byte{mf(d)} }
+	ic, is := &idleConn{Conn: ce}, &idleConn{Conn: se}
+	c := tlcp.Client(ic, cc)
+	s := tlcp.Server(is, sc)
+	stop := make(chan struct{})
+	closeAll := func() { ce.Close(); se.Close() }
+	go quiesce(ic, is, closeAll, stop)
+	defer close(stop)
+	vi := is
+	if victim == "client" {
+		vi = ic
 	}
-	c := tlcp.Client(ce, cc)
-	s := tlcp.Server(se, sc)
-	return runBoth(tConn{c}, tConn{s}, victim, func() { ce.Close(); se.Close() }, &o)
+	pi := ic
+	if victim == "client" {
+		pi = is
+	}
+	return runBoth(tConn{c}, tConn{s}, victim, closeAll, &o, vi, pi)
 }
 
 // runBoth runs both handshakes; the observation is about the victim.
-func runBoth(cl, sv liveConn, victim string, closeAll func(), o *liveObs) string {
+func runBoth(cl, sv liveConn, victim string, closeAll func(), o *liveObs, vicIdle, peerIdle *idleConn) string {
 	vic, peer := sv, cl
 	if victim == "client" {
 		vic, peer = cl, sv
@@ -440,14 +528,25 @@ func runBoth(cl, sv liveConn, victim string, closeAll func(), o *liveObs) string
 			}
 		}()
 		peer.Handshake()
-	}()
-	err, p, stalled := guarded(func() error {
-		if e := vic.Handshake(); e != nil {
-			return e
+		if peerIdle != nil {
+			peerIdle.done.Store(1)
 		}
-		// completed despite the mutation (e.g. a duplicate): one Read with a short deadline
-		return nil
-	}, closeAll, watchdog)
+	}()
+	parked := false
+	err, p, stalled := guarded(func() error {
+		e := vic.Handshake()
+		if vicIdle != nil {
+			vicIdle.done.Store(1)
+		}
+		return e
+	}, func() {
+		// parked inside the transport's Read when the watchdog fires: waiting for a silent peer
+		parked = vicIdle != nil && vicIdle.waiting.Load() == 1
+		closeAll()
+	}, watchdog)
+	if parked {
+		stalled = false
+	}
 	closeAll()
 	wg.Wait()
 	sm.finish(vic)
@@ -602,9 +701,70 @@ func finishObs(o *liveObs, err error, p string, stalled bool) string {
 	return o.String()
 }
 
+// ---------------------------------------------------------------------------
+// certificates of foreign key types in every position, and servers that skip CertificateRequest
+
+func execCert(desc string) string {
+	stack, _ := hx.KV(desc, "stack")
+	victim, _ := hx.KV(desc, "victim")
+	suite, _ := hx.KV(desc, "suite")
+	kv := func(k string) string { v, _ := hx.KV(desc, k); return v }
+	ssig, senc := leafOf(kv("ssig"), 0, false), leafOf(kv("senc"), 1, false)
+	csig, cenc := leafOf(kv("csig"), 0, true), leafOf(kv("cenc"), 1, true)
+	auth := hx.KVInt(desc, "auth")
+	var o liveObs
+	o.hs = 12
+	s := pki.Std()
+	if stack == "dtlcp" {
+		cc, sc := dConfigs(suite)
+		cc.InsecureSkipVerify = true
+		sc.Certificates = []dtlcp.Certificate{pair.DCert(ssig), pair.DCert(senc)}
+		cc.Certificates = nil
+		if csig != nil {
+			cc.Certificates = append(cc.Certificates, pair.DCert(csig))
+			if cenc != nil {
+				cc.Certificates = append(cc.Certificates, pair.DCert(cenc))
+			}
+		}
+		sc.ClientAuth = dtlcp.ClientAuthType(auth)
+		sc.ClientCAs = s.Root.Pool
+		ce, se := pair.PacketPipe()
+		c := dtlcp.Client(ce, se.LocalAddr(), cc)
+		sv := dtlcp.Server(se, ce.LocalAddr(), sc)
+		return runBoth(dConn{c}, dConn{sv}, victim, func() { ce.Close(); se.Close() }, &o, nil, nil)
+	}
+	cc, sc := tConfigs(suite)
+	cc.InsecureSkipVerify = true
+	sc.Certificates = []tlcp.Certificate{pair.TCert(ssig), pair.TCert(senc)}
+	cc.Certificates = nil
+	if csig != nil {
+		cc.Certificates = append(cc.Certificates, pair.TCert(csig))
+		if cenc != nil {
+			cc.Certificates = append(cc.Certificates, pair.TCert(cenc))
+		}
+	}
+	sc.ClientAuth = tlcp.ClientAuthType(auth)
+	sc.ClientCAs = s.Root.Pool
+	ce, se := pair.StreamPipe()
+	ic, is := &idleConn{Conn: ce}, &idleConn{Conn: se}
+	c := tlcp.Client(ic, cc)
+	sv := tlcp.Server(is, sc)
+	stop := make(chan struct{})
+	closeAll := func() { ce.Close(); se.Close() }
+	go quiesce(ic, is, closeAll, stop)
+	defer close(stop)
+	vi, pi := is, ic
+	if victim == "client" {
+		vi, pi = ic, is
+	}
+	return runBoth(tConn{c}, tConn{sv}, victim, closeAll, &o, vi, pi)
+}
+
 func execLive(desc string) string {
 	fn, _ := hx.KV(desc, "fn")
 	switch fn {
+	case "live_cert":
+		return execCert(desc)
 	case "live_flood":
 		return execFlood(desc)
 	case "live_state":
@@ -633,6 +793,25 @@ func genLive(o hx.Opts, emit func(string)) {
 			emit("fn=live_flood stack=" + st + " victim=" + v + " kind=hs n=3 size=700 suite=ecccbc")
 		}
 	}
+	// 1b. certificates of foreign key types in both positions on both sides, every client-auth
+	// policy (0 = the server sends no CertificateRequest: the F4 situation for ECDHE)
+	for _, st := range []string{"tlcp", "dtlcp"} {
+		for _, su := range []string{"ecc", "ecdhe"} {
+			for _, v := range []string{"client", "server"} {
+				emit(fmt.Sprintf("fn=live_cert stack=%s victim=%s suite=%s ssig=sm2 senc=sm2 csig=sm2 cenc=sm2 auth=0", st, v, su))
+				emit(fmt.Sprintf("fn=live_cert stack=%s victim=%s suite=%s ssig=sm2 senc=sm2 csig=- cenc=- auth=0", st, v, su))
+				for _, k := range []string{"rsa", "p256", "ed"} {
+					if st == "dtlcp" && o.Tier != "thorough" && k != "rsa" {
+						continue
+					}
+					emit(fmt.Sprintf("fn=live_cert stack=%s victim=%s suite=%s ssig=sm2 senc=%s csig=sm2 cenc=sm2 auth=%d", st, v, su, k, hx.Pick(r, []int{0, 4})))
+					emit(fmt.Sprintf("fn=live_cert stack=%s victim=%s suite=%s ssig=%s senc=sm2 csig=sm2 cenc=sm2 auth=%d", st, v, su, k, hx.Pick(r, []int{0, 4})))
+					emit(fmt.Sprintf("fn=live_cert stack=%s victim=%s suite=%s ssig=sm2 senc=sm2 csig=%s cenc=sm2 auth=%d", st, v, su, k, hx.Pick(r, []int{1, 2, 4})))
+					emit(fmt.Sprintf("fn=live_cert stack=%s victim=%s suite=%s ssig=sm2 senc=sm2 csig=sm2 cenc=%s auth=%d", st, v, su, k, hx.Pick(r, []int{1, 2, 4})))
+				}
+			}
+		}
+	}
 	// 2. every handshake state x mutation kind
 	muts := []string{"trunc", "flip", "flipbody", "lenp", "lenm", "reclen", "junk", "dup", "rand", "cut", "cuths"}
 	reps := 1 * o.Scale
@@ -643,11 +822,17 @@ func genLive(o hx.Opts, emit func(string)) {
 		for _, st := range []string{"tlcp", "dtlcp"} {
 			for _, su := range []string{"ecc", "ecdhe"} {
 				for _, v := range []string{"server", "client"} {
-					nWrites := 5
-					if v == "server" && su == "ecdhe" {
-						nWrites = 6
+					nRecs := 4 // records a client sends: ClientHello, ClientKeyExchange, ChangeCipherSpec, Finished
+					if v == "client" {
+						nRecs = 6 // ServerHello, Certificate, ServerKeyExchange, ServerHelloDone, ChangeCipherSpec, Finished
 					}
-					for at := 0; at < nWrites; at++ {
+					if su == "ecdhe" {
+						nRecs += 2 // CertificateRequest / Certificate, CertificateVerify
+						if v == "client" {
+							nRecs--
+						}
+					}
+					for at := 0; at < nRecs; at++ {
 						for _, m := range muts {
 							if o.Tier != "thorough" && st == "dtlcp" && r.Chance(60) {
 								continue // datagram cases end by timeout: keep the quick tier short
